@@ -227,6 +227,18 @@ def main(tier, seed):
             model_mismatch[nm] = model_mismatch.get(nm, 0) + 1
     import icheck
     n_viol += min(2, icheck.report_unattributed(PROP, v, masks, sub, ref_charts))
+    # "a run is a function of the statechart's structure and the input history only": what a guard or a condition evaluates
+    # to is the value of its text in what it can observe - not of what this or another interpreter evaluated earlier
+    n_bad = 0
+    for c in sub:
+        bad = icheck.eval_results_ok(c, ('guard', 'pre', 'inv', 'post'))
+        if bad:
+            n_bad += 1
+            if n_bad <= 2:
+                rep = ifam.describe_case(c, ref_charts)
+                rep.update(property=PROP, clause=bad + ' (C07: a run is a function of the structure and the input history only)')
+                v.violation(rep, tag='evalres%d' % n_bad)
+                n_viol += 1
     for fn, out in fails:
         n_viol += 1
         v.violation(dict(property=PROP, broken='correspondence lemma file did not evaluate', file=fn, log=out), tag='coq',
